@@ -19,6 +19,9 @@ def queries(dx, pdf, other, npart=4):
         return dx.from_pandas(pdf, npartitions=npart)
     def oth():
         return dx.from_pandas(other, npartitions=2)
+    def pre():
+        import pandas as pd
+        return dx.from_pandas(pd.DataFrame({"x": range(60), "w": range(60, 0, -1), "v": [i % 7 for i in range(60)]}), npartitions=4)
     def unsorted():
         return dx.from_pandas(pdf.iloc[_PERM], npartitions=npart)
     def big():
@@ -111,6 +114,13 @@ def queries(dx, pdf, other, npart=4):
         "big-set_index-partition1": lambda: big().set_index("k").partitions[[1]],
         "big-sort_values": lambda: big().sort_values("k"),
         "big-sort_values-partition0": lambda: big().sort_values("k").partitions[[0]],
+        # one column, already sorted across the partitions, sorted in both directions / indexed (the cached division info
+        # of a sort includes a "presorted" verdict that depends on the direction)
+        "presorted-sort-asc": lambda: pre().sort_values("x"),
+        "presorted-sort-desc": lambda: pre().sort_values("x", ascending=False),
+        "presorted-set_index": lambda: pre().set_index("x"),
+        "presorted-sort-desc-by-other": lambda: pre().sort_values("w", ascending=False),
+        "presorted-sort-asc-by-other": lambda: pre().sort_values("w"),
         # a source whose index is not sorted (from_pandas sorts a private copy)
         "unsorted-source": lambda: unsorted(),
         "unsorted-source-filter": lambda: (lambda d: d[d.a > 3])(unsorted()),
